@@ -447,15 +447,30 @@ mod stm {
                 v.leaves.push(vec![0]);
                 ("hsep-padding-claim", Expect::NotJudged)
             }
-            _ => {
+            16 => {
                 v.idxs.clear();
                 v.leaves.clear();
                 ("empty", Expect::Reject)
             }
+            _ => {
+                // a second entry at the same index carrying a foreign leaf, every path value doubled so
+                // that the genuine entry still climbs to the root: only the final "exactly one node left"
+                // test stands between this input and acceptance
+                if k == 1 && base.vals.len() == v.vals.len() {
+                    v.idxs.push(v.idxs[0]);
+                    v.leaves.push(foreign(fresh));
+                    v.vals = v.vals.iter().flat_map(|x| [x.clone(), x.clone()]).collect();
+                    ("dup-index-foreign-leaf-doubled-path", Expect::Reject)
+                } else {
+                    v.idxs.insert(j, v.idxs[j]);
+                    v.leaves.insert(j, foreign(fresh));
+                    ("dup-index-foreign-leaf", Expect::Reject)
+                }
+            }
         };
         Mutated { kind: kind.into(), v, expect }
     }
-    pub const N_MUT: u64 = 17;
+    pub const N_MUT: u64 = 18;
 
     pub fn desc(t_tag: u8, t: &Tree, v: &VIn) -> serde_json::Value {
         serde_json::json!({
@@ -551,7 +566,7 @@ mod stm {
         }
         for _ in 0..npair {
             let mut r = rng.fork();
-            let (w1, w2) = (rng.below(N_MUT - 2), rng.below(N_MUT - 2));
+            let (w1, w2) = (rng.below(15), rng.below(15));
             let Some(id) = sink.wants() else { continue };
             let b = base.get_or_insert_with(|| honest_input(t, idxs));
             let m1 = mutate(t, b, &mut r, w1);
